@@ -28,6 +28,8 @@ import (
 	"encoding/hex"
 	"fmt"
 	"net"
+	"net/netip"
+	"net/url"
 	"os"
 	"reflect"
 	"runtime"
@@ -37,8 +39,10 @@ import (
 	"strconv"
 	"strings"
 	"testing"
+	"time"
 
 	"github.com/AdguardTeam/AdGuardDNS/internal/dnsserver/zzverif/vrt"
+	"github.com/AdguardTeam/urlfilter/rules"
 	"github.com/miekg/dns"
 )
 
@@ -69,9 +73,14 @@ func c07IP6(last byte) net.IP {
 // c07Shape is one message shape of the alphabet.  Build returns a completely
 // fresh object graph on every call.
 type c07Shape struct {
-	Name  string
-	Wire  bool // also offered born from the wire
-	Deep  bool // member of the reduced alphabet of the deepest level (wire birth if offered, else built)
+	Name string
+	Wire bool // also offered born from the wire
+	Deep bool // member of the reduced alphabet of the deepest level (wire birth if offered, else built)
+	// WireOnly shapes are offered born from the wire only.
+	WireOnly bool
+	// Ctor marks the members of the N alphabet of the constructor part: what
+	// they leave in the pools is what the Constructor draws from.
+	Ctor  bool
 	Build func() *dns.Msg
 }
 
@@ -86,7 +95,7 @@ var c07Shapes = []c07Shape{{
 	},
 }, {
 	// Request with OPT: cookie + IPv4 client subnet; empty non-nil answer.
-	Name: "req_https_opt", Deep: true,
+	Name: "req_https_opt", Deep: true, Ctor: true,
 	Build: func() *dns.Msg {
 		return &dns.Msg{
 			MsgHdr:   dns.MsgHdr{Id: 0x1002, RecursionDesired: true, AuthenticatedData: true},
@@ -100,7 +109,7 @@ var c07Shapes = []c07Shape{{
 	},
 }, {
 	// A, A (16-byte form), AAAA, AAAA.
-	Name: "resp_a_aaaa", Wire: true, Deep: true,
+	Name: "resp_a_aaaa", Wire: true, Deep: true, Ctor: true,
 	Build: func() *dns.Msg {
 		return &dns.Msg{
 			MsgHdr:   dns.MsgHdr{Id: 0x1003, Response: true, RecursionDesired: true, RecursionAvailable: true},
@@ -116,7 +125,7 @@ var c07Shapes = []c07Shape{{
 	},
 }, {
 	// CNAME chain; OPT with nil option list.
-	Name: "resp_cname_a", Deep: true,
+	Name: "resp_cname_a", Deep: true, Ctor: true,
 	Build: func() *dns.Msg {
 		return &dns.Msg{
 			MsgHdr:   dns.MsgHdr{Id: 0x1004, Response: true, RecursionDesired: true, RecursionAvailable: true},
@@ -131,7 +140,7 @@ var c07Shapes = []c07Shape{{
 	},
 }, {
 	// MX, SRV, PTR, TXT, two of each; empty non-nil additional section.
-	Name: "resp_mx_srv_ptr_txt", Deep: true,
+	Name: "resp_mx_srv_ptr_txt", Deep: true, Ctor: true,
 	Build: func() *dns.Msg {
 		return &dns.Msg{
 			MsgHdr:   dns.MsgHdr{Id: 0x1005, Response: true, RecursionAvailable: true},
@@ -151,7 +160,7 @@ var c07Shapes = []c07Shape{{
 	},
 }, {
 	// NODATA: SOA in authority, OPT with EDE, empty non-nil answer.
-	Name: "resp_nodata_soa_ede", Deep: true,
+	Name: "resp_nodata_soa_ede", Deep: true, Ctor: true,
 	Build: func() *dns.Msg {
 		return &dns.Msg{
 			MsgHdr:   dns.MsgHdr{Id: 0x1006, Response: true, RecursionDesired: true, RecursionAvailable: true},
@@ -330,7 +339,7 @@ var c07Shapes = []c07Shape{{
 	},
 }, {
 	// OPT with an IPv6 client subnet and two EDE options.
-	Name: "resp_opt_ecs6_ede", Deep: true,
+	Name: "resp_opt_ecs6_ede", Deep: true, Ctor: true,
 	Build: func() *dns.Msg {
 		return &dns.Msg{
 			MsgHdr:   dns.MsgHdr{Id: 0x100d, Response: true, RecursionDesired: true, RecursionAvailable: true, AuthenticatedData: true},
@@ -397,14 +406,189 @@ var c07Shapes = []c07Shape{{
 			})},
 		}
 	},
+}, {
+	// Upstream reply with an extended RCODE (BADVERS = 16, extended part 1):
+	// its OPT carries 1 in the top byte of the TTL field.
+	Name: "resp_badvers_ext1", WireOnly: true, Ctor: true,
+	Build: func() *dns.Msg {
+		opt := c07OPT(1232, false, []dns.EDNS0{
+			&dns.EDNS0_COOKIE{Code: dns.EDNS0COOKIE, Cookie: "a1a2a3a4a5a6a7a8"},
+		})
+		opt.Hdr.Ttl = 0x01 << 24
+
+		return &dns.Msg{
+			MsgHdr:   dns.MsgHdr{Id: 0x1010, Response: true, RecursionDesired: true, RecursionAvailable: true, Rcode: dns.RcodeBadVers},
+			Question: c07Q("badvers.example.", dns.TypeA),
+			Extra:    []dns.RR{opt},
+		}
+	},
+}, {
+	// Upstream reply whose OPT has extended RCODE 255, EDNS version 1, DO and
+	// two further Z bits set, with an EDE option.
+	Name: "resp_ext255_v1_z", WireOnly: true, Ctor: true,
+	Build: func() *dns.Msg {
+		opt := c07OPT(4096, true, []dns.EDNS0{
+			&dns.EDNS0_EDE{InfoCode: dns.ExtendedErrorCodeNoReachableAuthority, ExtraText: "no reachable authority"},
+		})
+		opt.Hdr.Ttl = 0xff<<24 | 1<<16 | 0x8000 | 0x4000 | 0x0001
+
+		return &dns.Msg{
+			MsgHdr:   dns.MsgHdr{Id: 0x1011, Response: true, RecursionDesired: true, RecursionAvailable: true, Rcode: 0xff0 | dns.RcodeServerFailure},
+			Question: c07Q("ext.example.", dns.TypeA),
+			Answer: []dns.RR{
+				&dns.A{Hdr: c07Hdr("ext.example.", dns.TypeA, 280), A: net.IP{192, 0, 2, 111}},
+			},
+			Extra: []dns.RR{opt},
+		}
+	},
 }}
 
-// c07Entry is one (shape, birth) pair, the argument of an N operation.
+// ---- Messages built by the real Constructor -----------------------------------
+
+// c07Ctors are constructors of every blocking mode that share one cloner, as
+// the profiles' and filtering groups' constructors do in production.
+type c07Ctors struct {
+	null, nx, refused, custom *Constructor
+}
+
+func c07NewCtors(cl *Cloner) *c07Ctors {
+	mk := func(bm BlockingMode, ede, sde bool) *Constructor {
+		c, err := NewConstructor(&ConstructorConfig{
+			Cloner: cl,
+			StructuredErrors: &StructuredDNSErrorsConfig{
+				Enabled:       sde,
+				Justification: "Filtered by the verification harness",
+				Organization:  "verif",
+				Contact:       []*url.URL{{Scheme: "mailto", Opaque: "dns@verif.example"}},
+			},
+			BlockingMode:        bm,
+			FilteredResponseTTL: 10 * time.Second,
+			EDEEnabled:          ede,
+		})
+		if err != nil {
+			vrt.Fatalf("constructor: %v", err)
+		}
+
+		return c
+	}
+
+	return &c07Ctors{
+		null:    mk(&BlockingModeNullIP{}, true, true),
+		nx:      mk(&BlockingModeNXDOMAIN{}, true, false),
+		refused: mk(&BlockingModeREFUSED{}, false, false),
+		custom: mk(&BlockingModeCustomIP{
+			IPv4: []netip.Addr{netip.MustParseAddr("198.51.100.1"), netip.MustParseAddr("198.51.100.2")},
+			IPv6: []netip.Addr{netip.MustParseAddr("2001:db8::b1"), netip.MustParseAddr("2001:db8::b2")},
+		}, true, false),
+	}
+}
+
+// c07Req returns a fresh client request: kind "plain" has no OPT, "edns" an
+// OPT without DO, "do" an OPT with DO and the CD bit, "sde" an OPT with the
+// empty EDE option that asks for structured errors.
+func c07Req(qt uint16, kind string) *dns.Msg {
+	m := &dns.Msg{
+		MsgHdr:   dns.MsgHdr{Id: 0x2000 + qt, RecursionDesired: true},
+		Question: c07Q("blocked.example.", qt),
+	}
+	switch kind {
+	case "edns":
+		m.Extra = []dns.RR{c07OPT(1232, false, nil)}
+	case "do":
+		m.CheckingDisabled = true
+		m.Extra = []dns.RR{c07OPT(4096, true, nil)}
+	case "sde":
+		m.Extra = []dns.RR{c07OPT(1232, false, []dns.EDNS0{&dns.EDNS0_EDE{}})}
+	}
+
+	return m
+}
+
+func c07Must(m *dns.Msg, err error) *dns.Msg {
+	if err != nil {
+		vrt.Fatalf("constructor call failed: %v", err)
+	}
+
+	return m
+}
+
+// c07Build is one call of the real Constructor, the argument of a B operation.
+type c07Build struct {
+	Name string
+	Make func(cs *c07Ctors) *dns.Msg
+}
+
+var c07Builds = []c07Build{{
+	Name: "nullip.NewBlockedResp(A,no-edns)",
+	Make: func(cs *c07Ctors) *dns.Msg { return c07Must(cs.null.NewBlockedResp(c07Req(dns.TypeA, "plain"))) },
+}, {
+	Name: "nullip.NewBlockedResp(A,edns)",
+	Make: func(cs *c07Ctors) *dns.Msg { return c07Must(cs.null.NewBlockedResp(c07Req(dns.TypeA, "edns"))) },
+}, {
+	Name: "nullip.NewBlockedResp(AAAA,edns-do)",
+	Make: func(cs *c07Ctors) *dns.Msg { return c07Must(cs.null.NewBlockedResp(c07Req(dns.TypeAAAA, "do"))) },
+}, {
+	Name: "nullip.NewBlockedResp(HTTPS,edns-sde)",
+	Make: func(cs *c07Ctors) *dns.Msg { return c07Must(cs.null.NewBlockedResp(c07Req(dns.TypeHTTPS, "sde"))) },
+}, {
+	Name: "nxdomain.NewBlockedResp(A,edns)",
+	Make: func(cs *c07Ctors) *dns.Msg { return c07Must(cs.nx.NewBlockedResp(c07Req(dns.TypeA, "edns"))) },
+}, {
+	Name: "refused.NewBlockedResp(A,edns-do)",
+	Make: func(cs *c07Ctors) *dns.Msg { return c07Must(cs.refused.NewBlockedResp(c07Req(dns.TypeA, "do"))) },
+}, {
+	Name: "customip.NewBlockedResp(A,edns)",
+	Make: func(cs *c07Ctors) *dns.Msg { return c07Must(cs.custom.NewBlockedResp(c07Req(dns.TypeA, "edns"))) },
+}, {
+	Name: "customip.NewBlockedResp(AAAA,edns-do)",
+	Make: func(cs *c07Ctors) *dns.Msg { return c07Must(cs.custom.NewBlockedResp(c07Req(dns.TypeAAAA, "do"))) },
+}, {
+	Name: "customip.NewBlockedResp(HTTPS,edns-do)",
+	Make: func(cs *c07Ctors) *dns.Msg { return c07Must(cs.custom.NewBlockedResp(c07Req(dns.TypeHTTPS, "do"))) },
+}, {
+	Name: "NewRespRCode(A,edns,SERVFAIL)",
+	Make: func(cs *c07Ctors) *dns.Msg {
+		return cs.null.NewRespRCode(c07Req(dns.TypeA, "edns"), dns.RcodeServerFailure)
+	},
+}, {
+	Name: "NewRespTXT(TXT,edns-do)",
+	Make: func(cs *c07Ctors) *dns.Msg {
+		return c07Must(cs.null.NewRespTXT(c07Req(dns.TypeTXT, "do"), "hash-1", "hash-2"))
+	},
+}, {
+	Name: "NewRespIP(AAAA,edns,2 addrs incl. zero)",
+	Make: func(cs *c07Ctors) *dns.Msg {
+		return c07Must(cs.nx.NewRespIP(c07Req(dns.TypeAAAA, "edns"), netip.MustParseAddr("2001:db8::77"), netip.Addr{}))
+	},
+}, {
+	// What the rule-list dnsrewrite and mainmw CNAME paths assemble: NewResp
+	// plus NewAnswer* records, then AddEDE (as the safe-browsing path does).
+	Name: "rewrite: NewResp+NewAnswerCNAME/MX/PTR/SRV+AddEDE(A,edns-do)",
+	Make: func(cs *c07Ctors) *dns.Msg {
+		req := c07Req(dns.TypeA, "do")
+		resp := cs.null.NewResp(req)
+		resp.Answer = append(resp.Answer,
+			cs.null.NewAnswerCNAME(req, "rewritten.example"),
+			cs.null.NewAnswerMX(req, &rules.DNSMX{Exchange: "mx.rewritten.example", Preference: 7}),
+			cs.null.NewAnswerPTR(req, "ptr.rewritten.example"),
+			cs.null.NewAnswerSRV(req, &rules.DNSSRV{Target: "srv.rewritten.example", Priority: 1, Weight: 2, Port: 3}),
+		)
+		cs.null.AddEDE(req, resp, dns.ExtendedErrorCodeForgedAnswer)
+
+		return resp
+	},
+}}
+
+// c07Entry is one (shape, birth) pair, the argument of an N operation, or one
+// constructor call, the argument of a B operation.
 type c07Entry struct {
 	Shape int
 	Wire  bool
 	Name  string
 	wire  []byte
+	// IsB entries are built by c07Builds[B].
+	IsB bool
+	B   int
 }
 
 var c07Entries []c07Entry
@@ -414,10 +598,12 @@ func c07Init() {
 		return
 	}
 	for i, s := range c07Shapes {
-		c07Entries = append(c07Entries, c07Entry{Shape: i, Name: s.Name + "/built"})
+		if !s.WireOnly {
+			c07Entries = append(c07Entries, c07Entry{Shape: i, Name: s.Name + "/built"})
+		}
 	}
 	for i, s := range c07Shapes {
-		if !s.Wire {
+		if !s.Wire && !s.WireOnly {
 			continue
 		}
 		b, err := s.Build().Pack()
@@ -429,11 +615,19 @@ func c07Init() {
 		}
 		c07Entries = append(c07Entries, c07Entry{Shape: i, Wire: true, Name: s.Name + "/wire", wire: b})
 	}
+	for i, b := range c07Builds {
+		c07Entries = append(c07Entries, c07Entry{Shape: -1, IsB: true, B: i, Name: b.Name})
+	}
 }
 
 // c07New returns a fresh original of entry e.
 func c07New(e int) *dns.Msg {
 	ent := &c07Entries[e]
+	if ent.IsB {
+		// The reference for a built message: the same call on a fresh cloner
+		// and fresh constructors.
+		return c07Builds[ent.B].Make(c07NewCtors(NewCloner(EmptyClonerStat{})))
+	}
 	if !ent.Wire {
 		return c07Shapes[ent.Shape].Build()
 	}
@@ -650,7 +844,13 @@ func c07MutateRR(rr dns.RR) {
 
 // ---- Canonical value ---------------------------------------------------------
 
-type c07Canon struct{ b []byte }
+type c07Canon struct {
+	b []byte
+	// noRdlen leaves RR_Header.Rdlength out: it is bookkeeping of Unpack,
+	// never packed and never read, so for constructor-built messages (whose
+	// reference is a fresh build) a stale value is only counted as a hint.
+	noRdlen bool
+}
 
 func (c *c07Canon) s(x string) { c.b = append(c.b, x...) }
 func (c *c07Canon) u(x uint64) { c.b = strconv.AppendUint(c.b, x, 10); c.b = append(c.b, ' ') }
@@ -730,8 +930,10 @@ func (c *c07Canon) rr(rr dns.RR) {
 	c.u(uint64(h.Class))
 	c.s("ttl=")
 	c.u(uint64(h.Ttl))
-	c.s("rdlen=")
-	c.u(uint64(h.Rdlength))
+	if !c.noRdlen {
+		c.s("rdlen=")
+		c.u(uint64(h.Rdlength))
+	}
 	c.s("| ")
 	switch v := rr.(type) {
 	case *dns.A:
@@ -816,17 +1018,17 @@ var c07SecNames = [3]string{"answer", "authority", "additional"}
 // empty lists are deliberately not distinguished (they are the same DNS
 // message; the fallback through dns.Copy does not preserve the difference and
 // the cloner's tests say so).
-func c07Value(m *dns.Msg) (s string) {
+func c07Value(m *dns.Msg, noRdlen bool) (s string) {
 	// A message damaged by the cloner may be unreadable (nil options).
-	if p := vrt.Catch(func() { s = c07ValueRaw(m) }); p != "" {
+	if p := vrt.Catch(func() { s = c07ValueRaw(m, noRdlen) }); p != "" {
 		return "unreadable message, panic while reading: " + p
 	}
 
 	return s
 }
 
-func c07ValueRaw(m *dns.Msg) string {
-	c := &c07Canon{b: make([]byte, 0, 1024)}
+func c07ValueRaw(m *dns.Msg, noRdlen bool) string {
+	c := &c07Canon{b: make([]byte, 0, 1024), noRdlen: noRdlen}
 	c.s("header id=")
 	c.u(uint64(m.Id))
 	c.s("op=")
@@ -869,6 +1071,24 @@ func c07ValueRaw(m *dns.Msg) string {
 
 // c07Pack returns the wire form of m, or the error.
 func c07Pack(m *dns.Msg) (s string) {
+	// Msg.Pack writes the upper bits of Msg.Rcode into the OPT record
+	// (SetExtendedRcode); undo that so that observing does not change the
+	// observed message.
+	type saved struct {
+		opt *dns.OPT
+		ttl uint32
+	}
+	var opts []saved
+	for _, rr := range m.Extra {
+		if o, ok := rr.(*dns.OPT); ok && o != nil {
+			opts = append(opts, saved{o, o.Hdr.Ttl})
+		}
+	}
+	defer func() {
+		for _, sv := range opts {
+			sv.opt.Hdr.Ttl = sv.ttl
+		}
+	}()
 	if p := vrt.Catch(func() {
 		b, err := m.Pack()
 		if err != nil {
@@ -941,7 +1161,7 @@ func c07Expected(p c07Prov) c07Expect {
 	for _, mu := range p.Muts {
 		c07Mutate(m, mu)
 	}
-	e := c07Expect{value: c07Value(m), pack: c07Pack(m)}
+	e := c07Expect{value: c07Value(m, c07Entries[p.Entry].IsB), pack: c07Pack(m)}
 	c07ExpCache[k] = e
 
 	return e
@@ -1013,9 +1233,9 @@ func c07Overlaps(spans []c07Span, cross bool) (n int) {
 
 // c07Op is one operation.
 type c07Op struct {
-	K string `json:"k"`           // N, C, D, W
+	K string `json:"k"`           // N, B, C, D, W
 	T int    `json:"t,omitempty"` // target slot (C, D, W)
-	E int    `json:"e,omitempty"` // alphabet entry (N)
+	E int    `json:"e,omitempty"` // alphabet entry (N, B)
 	M string `json:"m,omitempty"` // mutation kind (W)
 }
 
@@ -1033,6 +1253,9 @@ func c07Texts(ops []c07Op) (parts []string) {
 		switch o.K {
 		case "N":
 			parts = append(parts, "m"+strconv.Itoa(slot)+"=new("+c07Entries[o.E].Name+")")
+			slot++
+		case "B":
+			parts = append(parts, "m"+strconv.Itoa(slot)+"=build("+c07Entries[o.E].Name+")")
 			slot++
 		case "C":
 			parts = append(parts, "m"+strconv.Itoa(slot)+"=Clone(m"+strconv.Itoa(o.T)+")")
@@ -1055,7 +1278,11 @@ func c07Text(ops []c07Op) string { return strings.Join(c07Texts(ops), "; ") }
 // operation is N (N runs no repository code) and a history in which some
 // original is never the target of a later operation (the cloner has never
 // seen it, so nothing can have reached it).
-func c07Gen(n int, entries []int, muts []string, mine func() bool, emit func(c07Case)) {
+//
+// builds are the entries of the B operation (none in the parts without it).  A
+// built message has run repository code and is judged when it is made, so B
+// may be the last operation and its message need not be touched later.
+func c07Gen(n int, entries, builds []int, muts []string, mine func() bool, emit func(c07Case)) {
 	ops := make([]c07Op, 0, n)
 	var alive []bool // per slot
 	var used []bool  // per slot: has been a target (clones count as used)
@@ -1091,6 +1318,15 @@ func c07Gen(n int, entries []int, muts []string, mine func() bool, emit func(c07
 				ops = append(ops, c07Op{K: "N", E: e})
 				alive = append(alive, true)
 				used = append(used, false)
+				rec()
+				ops, alive, used = ops[:len(ops)-1], alive[:len(alive)-1], used[:len(used)-1]
+			}
+		}
+		if unused <= remaining-1 {
+			for _, e := range builds {
+				ops = append(ops, c07Op{K: "B", E: e})
+				alive = append(alive, true)
+				used = append(used, true)
 				rec()
 				ops, alive, used = ops[:len(ops)-1], alive[:len(alive)-1], used[:len(used)-1]
 			}
@@ -1141,6 +1377,7 @@ func c07Gen(n int, entries []int, muts []string, mine func() bool, emit func(c07
 }
 
 type c07Slot struct {
+	built   bool
 	msg     *dns.Msg
 	prov    c07Prov
 	clone   bool
@@ -1174,15 +1411,49 @@ func c07RunCase(r *vrt.Run, c c07Case) (fs []vrt.Finding) {
 	deadMsgs := map[*dns.Msg]struct{}{}
 	deadRRs := map[dns.RR]struct{}{}
 	text := c07Text(c.Ops)
+	var ctors *c07Ctors // real constructors sharing cl, made on the first B
 
 	for step, op := range c.Ops {
 		created := -1
 		switch op.K {
 		case "N":
-			if op.E < 0 || op.E >= len(c07Entries) {
+			if op.E < 0 || op.E >= len(c07Entries) || c07Entries[op.E].IsB {
 				vrt.Fatalf("bad case: entry %d", op.E)
 			}
 			slots = append(slots, &c07Slot{msg: c07New(op.E), prov: c07Prov{Entry: op.E}})
+		case "B":
+			if op.E < 0 || op.E >= len(c07Entries) || !c07Entries[op.E].IsB {
+				vrt.Fatalf("bad case: build entry %d", op.E)
+			}
+			if ctors == nil {
+				ctors = c07NewCtors(cl)
+			}
+			var msg *dns.Msg
+			if p := vrt.Catch(func() { msg = c07Builds[c07Entries[op.E].B].Make(ctors) }); p != "" {
+				return vrt.F("cloner/panic/build", "%s: step %d constructor panicked: %s", text, step, p)
+			}
+			r.Trans(1)
+			r.Class("build " + c07Entries[op.E].Name)
+			recycled, stale := 0, false
+			for _, sec := range c07Sections(msg) {
+				for _, rr := range sec {
+					if _, ok := deadRRs[rr]; ok {
+						recycled++
+						delete(deadRRs, rr)
+					}
+					if rr.Header().Rdlength != 0 {
+						stale = true
+					}
+				}
+			}
+			if recycled > 0 {
+				r.Count("build_got_recycled_rr", recycled)
+			}
+			if stale {
+				r.Count("hint_built_message_inherits_rdlength", 1)
+			}
+			created = len(slots)
+			slots = append(slots, &c07Slot{msg: msg, prov: c07Prov{Entry: op.E}, built: true})
 		case "C", "D", "W":
 			if op.T < 0 || op.T >= len(slots) || slots[op.T].dead {
 				vrt.Fatalf("bad case: step %d targets slot %d", step, op.T)
@@ -1202,6 +1473,8 @@ func c07RunCase(r *vrt.Run, c c07Case) (fs []vrt.Finding) {
 			kind := "original"
 			if src.clone {
 				kind = "clone"
+			} else if src.built {
+				kind = "built message"
 			}
 			if stat.partial > before.partial {
 				r.Class("clone of " + kind + ": partial (dns.Copy fallback used)")
@@ -1246,6 +1519,8 @@ func c07RunCase(r *vrt.Run, c c07Case) (fs []vrt.Finding) {
 			switch {
 			case s.clone:
 				r.Class("dispose clone")
+			case s.built:
+				r.Class("dispose built message")
 			case c07Entries[s.prov.Entry].Wire:
 				r.Class("dispose original born from the wire")
 			default:
@@ -1267,15 +1542,19 @@ func c07RunCase(r *vrt.Run, c c07Case) (fs []vrt.Finding) {
 				continue
 			}
 			exp := c07Expected(s.prov)
-			got := c07Value(s.msg)
+			got := c07Value(s.msg, c07Entries[s.prov.Entry].IsB)
 			var what string
 			switch {
+			case k == created && op.K == "B":
+				what = "built-message-differs-from-fresh-build"
 			case k == created:
 				what = "clone-differs-from-source"
 			case op.K == "W" && k == op.T:
 				what = "mutated-message-differs-from-own-expectation"
 			case op.K == "C":
 				what = "live-message-altered-by-clone"
+			case op.K == "B":
+				what = "live-message-altered-by-build"
 			case op.K == "D":
 				what = "live-message-altered-by-dispose"
 			default:
@@ -1347,17 +1626,34 @@ func TestVerifC07Cloner(t *testing.T) {
 	depth := vrt.Pick(r, 4, 5)
 	deep := depth + 1
 	r.Bound("cloner_history_length", depth)
-	r.Bound("cloner_alphabet_entries", len(c07Entries))
 	r.Bound("cloner_mutation_kinds", len(c07MutKinds))
 	r.Bound("cloner_history_length_reduced_alphabet", deep)
 	var names []string
-	all := make([]int, len(c07Entries))
-	var small []int
+	var all, small, ctorN, builds []int
+	var buildNames, ctorNames []string
 	for i, e := range c07Entries {
-		all[i] = i
+		if e.IsB {
+			builds = append(builds, i)
+			buildNames = append(buildNames, e.Name)
+
+			continue
+		}
+		all = append(all, i)
 		names = append(names, e.Name)
-		if c07Shapes[e.Shape].Deep && (e.Wire || !c07Shapes[e.Shape].Wire) {
+		sh := c07Shapes[e.Shape]
+		preferred := e.Wire || !sh.Wire
+		if sh.Deep && preferred {
 			small = append(small, i)
+		}
+		if sh.Ctor && preferred {
+			ctorN = append(ctorN, i)
+			ctorNames = append(ctorNames, e.Name)
+		}
+	}
+	r.Bound("cloner_alphabet_entries", len(all))
+	if os.Getenv("VERIF_C07_DUMP") != "" {
+		for i, e := range c07Entries {
+			fmt.Fprintf(os.Stderr, "ENTRY %d %s\n%s\n\n", i, e.Name, c07Expected(c07Prov{Entry: i}).value)
 		}
 	}
 	r.Note("cloner alphabet: %s; mutation kinds: %s", strings.Join(names, ", "), strings.Join(c07MutKinds, ", "))
@@ -1382,7 +1678,7 @@ func TestVerifC07Cloner(t *testing.T) {
 	}
 	vrt.Part(r, "cloner", func(emit func(c07Case)) {
 		for l := 1; l <= depth; l++ {
-			c07Gen(l, all, c07MutKinds, mine, emit)
+			c07Gen(l, all, nil, c07MutKinds, mine, emit)
 		}
 	}, run)
 	if deep > depth {
@@ -1394,9 +1690,28 @@ func TestVerifC07Cloner(t *testing.T) {
 		r.Note("cloner reduced alphabet for length %d: %s; all mutation kinds", deep, strings.Join(sn, ", "))
 		vrt.Part(r, "cloner-deep", func(emit func(c07Case)) {
 			for l := depth + 1; l <= deep; l++ {
-				c07Gen(l, small, c07MutKinds, mine, emit)
+				c07Gen(l, small, nil, c07MutKinds, mine, emit)
 			}
 		}, run)
+	}
+
+	// Constructor part: histories with the B operation (a response built by
+	// the real Constructor that shares the cloner) over a reduced N alphabet.
+	bdepth := 4
+	r.Bound("cloner_build_history_length", bdepth)
+	r.Bound("cloner_build_calls", len(builds))
+	r.Bound("cloner_build_alphabet_entries", len(ctorN))
+	r.Note("constructor part: B calls: %s; N alphabet: %s; all mutation kinds", strings.Join(buildNames, ", "), strings.Join(ctorNames, ", "))
+	vrt.Part(r, "cloner-build", func(emit func(c07Case)) {
+		for l := 1; l <= bdepth; l++ {
+			c07Gen(l, ctorN, builds, c07MutKinds, mine, emit)
+		}
+		if r.Thorough() {
+			c07Gen(bdepth+1, ctorN, builds, []string{"ttl", "inplace"}, mine, emit)
+		}
+	}, run)
+	if r.Thorough() {
+		r.Bound("cloner_build_history_length_two_mutation_kinds", bdepth+1)
 	}
 	r.Finish()
 	os.Exit(0)
